@@ -619,7 +619,7 @@ def national_expectation(S, entries, cc, b):
         key = S.lookup_key(cc, b)
         listed = [e for e in entries if e["country_code"] == cc and e["bank_code"] == key]
         algo = listed[0].get("checksum_algo") if listed else None
-        if algo is None or ("DE:" + algo) not in checksum.algorithms:
+        if algo is None or ("DE:" + str(algo)) not in checksum.algorithms:
             return True
         w = natref.de(algo, b[8:18])
         return w if isinstance(w, bool) else None
@@ -1135,9 +1135,26 @@ def c07(run):
     named = {}
     for e in de_banks:
         named.setdefault(e["bank_code"], []).append(e.get("checksum_algo"))
+    # method ids that are not two-character texts (a number 6 for "06", a blank-padded id, …): the bank IS
+    # listed with the method the id denotes; an account that method rejects must be rejected
+    import re as _re
+    for e in de_banks:
+        mid = e.get("checksum_algo")
+        if mid is None or (isinstance(mid, str) and _re.fullmatch(r"[0-9A-Z]{2}", mid)):
+            continue
+        canon = str(mid).strip().upper().zfill(2)
+        if canon in methods and e["bank_code"]:
+            for _ in range(4000):
+                acct = "".join(r.choice(DIGITS) for _ in range(10))
+                if natref.de(canon, acct) is False:
+                    b = e["bank_code"] + acct
+                    i = "DE" + iban_check_digits("DE", b) + b
+                    ops2.append(["iban.new", hx(i), "F", "T"])
+                    meta2.append((canon, acct, i))
+                    break
     for code, ms in sorted(named.items()):
-        if code and len(set(ms)) > 1:
-            named_here = sorted({m for m in ms if m in methods})
+        if code and len(set(map(str, ms))) > 1:
+            named_here = sorted({m for m in ms if isinstance(m, str) and m in methods})
             unnamed = any(m not in methods for m in ms)     # an entry without (implemented) method accepts all
             for m in named_here:
                 done = 0
@@ -2055,6 +2072,16 @@ def c16(run):
         a = r.choice(texts)
         b = r.choice(texts) if r.random() < 0.6 else (r.choice(["iban", "bic", "str", a[0]]), a[1])
         ops.append(["obj.cmp", a[0], hx(a[1]), b[0], hx(b[1])])
+    # the same text carried by every pair of kinds of object (all three classes, a plain str, BBANs of the
+    # text's own country, of another country of the table, and of an unknown one): swept completely
+    for _ in range(run.scale(12, 200)):
+        i = S.iban()
+        other = r.choice([c for c in S.countries if c != i[:2]])
+        kinds = ["iban", "bic", "str", "bban:" + hx(i[:2]), "bban:" + hx(other), "bban:" + hx("XX")]
+        for t in (i[4:], i, r.choice(bics)):
+            for k1 in kinds:
+                for k2 in kinds:
+                    ops.append(["obj.cmp", k1, hx(t), k2, hx(t)])
     for b8 in r.sample(bics, 40):
         for x, y in ((b8[:8], b8[:8] + "XXX"), (b8[:8] + "XXX", b8[:8])):
             for k1 in ("bic", "str"):
